@@ -3865,7 +3865,7 @@ fn scenario_maturity_fork(work: &str, out: &mut Out, total: &mut BTreeMap<String
 	w.obs(out, "headers of the competing fork accepted");
 	let srcs = [TxSource::PushApi, TxSource::Broadcast, TxSource::Fluff];
 	let mut k = 0usize;
-	for extra in 0..3 {
+	for extra in 0..2 {
 		let h = w.node.head().map(|t| t.height).unwrap_or(0);
 		let next = h + 1;
 		let utxo = w.node_utxo();
@@ -3893,9 +3893,9 @@ fn scenario_maturity_fork(work: &str, out: &mut Out, total: &mut BTreeMap<String
 			let t = w.add_tx(out, tx, vec![], &format!("maturity-fork:coinbase-age:maturity{:+}", -delta));
 			let list: Vec<(Form, bool)> = if mature {
 				k += 1;
-				vec![([Form::V3, Form::V2][k % 2], k % 3 == 0)]
+				vec![([Form::V3, Form::V2][(k / 2) % 2], k % 3 == 0)]
 			} else {
-				vec![(Form::V3, false), (Form::V2, false), (Form::V2WrongFeatures, false), (Form::V3, true), (Form::V2, true)]
+				vec![(Form::V3, false), (Form::V2, false), (Form::V2WrongFeatures, true)]
 			};
 			for (form, stem) in list {
 				k += 1;
@@ -3938,7 +3938,7 @@ fn scenario_maturity_fork(work: &str, out: &mut Out, total: &mut BTreeMap<String
 				}
 			}
 		}
-		if extra < 2 && !body_block(&mut w, out, &mut body_plain) {
+		if extra < 1 && !body_block(&mut w, out, &mut body_plain) {
 			break;
 		}
 	}
@@ -4628,7 +4628,7 @@ fn main() {
 	// long jobs are started first (the output order stays the job order)
 	let mut order: Vec<(usize, String, Job)> = jobs.into_iter().enumerate().map(|(i, (n, j))| (i, n, j)).collect();
 	let cost = |n: &str| -> u32 {
-		if n.starts_with("evict-trees") || n == "forms" {
+		if n.starts_with("evict-trees") || n == "forms" || n == "maturity" {
 			0
 		} else if n.starts_with('h') || n.starts_with('e') && !n.starts_with("evict-") || n == "stempool-reconcile" {
 			1
